@@ -163,7 +163,11 @@ def build_config(call, variant, seed):
         mk = (lambda: red.ExponentiatedGradient(RC.ExactLearner(), red.DemographicParity(), max_iter=3)) if call["ep"].startswith("Exp") else (lambda: red.GridSearch(RC.ExactLearner(), red.DemographicParity(), grid_size=3))
         return (lambda: mk().fit(X, np.array(y))), (lambda: mk().fit(X, np.array(y), sensitive_features=g))
     if call["ep"] == "ThresholdOptimizer_fit":
-        to = lambda **kw: ThresholdOptimizer(**{"estimator": LogisticRegression(), "predict_method": "predict_proba", **kw})
+        if variant % 2:
+            fitted = LogisticRegression().fit(X, y)
+            to = lambda **kw: ThresholdOptimizer(**{"estimator": fitted, "prefit": True, "predict_method": "predict_proba", **kw})      # prefit estimator
+        else:
+            to = lambda **kw: ThresholdOptimizer(**{"estimator": LogisticRegression(), "predict_method": "predict_proba", **kw})
         twin = lambda: to().fit(X, y, sensitive_features=wrap(g, cw, "sf"))
         yd = list(y)
         grp = rnd.choice("abc"); lab = rnd.randint(0, 1)
@@ -224,7 +228,7 @@ def run(ck):
     ck.exhaustive = True
     nvar = 2 if ck.quick else 6
     # variants rotate over the moment classes / metric functions / constraints: always cover all of them
-    per_ep = {"moment_load_data": len(MOMENTS), "fairness_metric": len(FAIR), "ThresholdOptimizer_fit": 3, "constructor": 10}
+    per_ep = {"moment_load_data": len(MOMENTS), "fairness_metric": len(FAIR), "ThresholdOptimizer_fit": 6, "constructor": 10}
     jobs = [(c, v, ck.seed) for c in calls for v in range(max(nvar, per_ep.get(c["ep"], 0))) if c["must_reject"]] + [(c, 0, ck.seed) for c in calls if not c["must_reject"]]
     res = pmap(_one, jobs, chunksize=4)
     nskip = nex = 0
